@@ -302,6 +302,10 @@ func (c *Check) finish(verifDir string, t0 time.Time, seed int, onlyKey string) 
 		"checker_cmd":         fmt.Sprintf("bin/ncgverif -prop %s -tier %s", c.Prop, c.Tier),
 		"trusted_base":        []string{"Go type checker (go/types) and golang.org/x/tools v0.29.0 loader", "dependency summaries listed in DESIGN.md section 4"},
 	}
+	if c.Assume == nil {
+		c.Assume = []string{}
+	}
+	c.Assume = append(c.Assume, "the Go type checker and loader are faithful to the language; dependency summaries of DESIGN.md section 4")
 	ev := evidence{PropertyID: c.Prop, Tier: c.Tier, Seed: seed, Level: "other", Coverage: cov, Assumptions: c.Assume, WallS: time.Since(t0).Seconds(), Violations: len(failed)}
 	bs, _ := json.MarshalIndent(ev, "", " ")
 	if err := os.WriteFile(filepath.Join(verifDir, "evidence", c.Prop+".json"), bs, 0o644); err != nil {
